@@ -93,6 +93,16 @@ if os.environ.get("C18_SOCK"):
         c = _cmd()
         if c == "kill":
             os.kill(os.getpid(), signal.SIGKILL)
+        if c.startswith("raise "):          # fault injection: this action fails with an I/O error
+            name = c.split()[1]
+            _post(f, act, name)
+            import errno
+            if name == "Timeout":
+                import filelock as _fl
+                raise _fl.Timeout("injected by the C18 harness")
+            cls = {"PermissionError": (PermissionError, errno.EACCES), "OSError": (OSError, errno.ENOSPC),
+                   "FileNotFoundError": (FileNotFoundError, errno.ENOENT)}[name]
+            raise cls[0](cls[1], "injected by the C18 harness")
         return c
 
     def _post(f, act, res):
@@ -116,10 +126,12 @@ if os.environ.get("C18_SOCK"):
         return _wrap(k, "exists", lambda: _exists(path), lambda r: "1" if r else "0")
     os.path.exists = exists
 
+    import shutil      # before os.unlink is wrapped: shutil decides at import time whether it can use dir_fd functions
+    _in_wipe = [False]
     _remove = os.remove
     def remove(path, *a, **kw):
         k = _kind(path)
-        if k is None or str(path).endswith(".lock"):
+        if k is None or str(path).endswith(".lock") or _in_wipe[0]:
             return _remove(path, *a, **kw)
         return _wrap(k, "remove", lambda: _remove(path, *a, **kw))
     os.remove = remove
@@ -191,6 +203,25 @@ if os.environ.get("C18_SOCK"):
         return replace
     os.replace = _mk_replace(os.replace)
     os.rename = _mk_replace(os.rename)
+
+    # a cache-disabled process removes the whole cache folder
+    import shutil
+    _rmtree = shutil.rmtree
+    def rmtree(path, *a, **kw):
+        try:
+            mine = os.path.abspath(str(path)) == os.path.abspath(os.environ.get("SPSDK_CACHE_FOLDER", "\0"))
+        except Exception:
+            mine = False
+        if not mine:
+            return _rmtree(path, *a, **kw)
+        def go():
+            _in_wipe[0] = True
+            try:
+                return _rmtree(path, *a, **kw)
+            finally:
+                _in_wipe[0] = False
+        return _wrap("*", "wipe", go)
+    shutil.rmtree = rmtree
 
     import filelock
     _acq = filelock.BaseFileLock.acquire
@@ -423,8 +454,9 @@ class Sched:
     releases ONE enabled action at a time whenever all live children are waiting (so the schedule is a deterministic function
     of `choose`); free mode: only the start barrier."""
 
-    def __init__(self, work: Path, cache: Path, site: Path, queries, choose, crash_plan=None, free=False, timeout=240):
+    def __init__(self, work: Path, cache: Path, site: Path, queries, choose, crash_plan=None, free=False, timeout=240, disabled=()):
         self.work, self.cache, self.site, self.queries, self.choose = work, cache, site, queries, choose
+        self.disabled = set(disabled)    # processes running with SPSDK_CACHE_DISABLED=1
         self.crash_plan = dict(crash_plan or {})   # pid -> ((file, act, occurrence), "kill" | "partial n")
         self.free, self.timeout = free, timeout
         self.trace, self.locks, self.problem = [], {}, None
@@ -440,6 +472,8 @@ class Sched:
         self.sel.register(self.srv, selectors.EVENT_READ, None)
         for p in self.procs:
             env = child_env(self.cache, self.site, {"C18_SOCK": self.sockpath, "C18_ID": str(p.i), "C18_MODE": "log" if self.free else "gate"})
+            if p.i in self.disabled:
+                env["SPSDK_CACHE_DISABLED"] = "1"
             p.popen = subprocess.Popen([PY, "-c", CHILD, *self.queries[p.i]], env=env, stdout=subprocess.PIPE, stderr=subprocess.PIPE, text=True)
 
     def _pump(self, wait):
@@ -494,6 +528,8 @@ class Sched:
                 self.locks[m["f"]] = p.i
             if m["act"] == "release" and self.locks.get(m["f"]) == p.i:
                 del self.locks[m["f"]]
+            if m["act"] == "wipe":
+                self.locks.clear()      # the lock files are unlinked: whoever holds one holds an orphan
             p.state, p.pending = "running", None
         elif ev == "eof":
             p.state = "exited"
@@ -543,10 +579,13 @@ class Sched:
                 if plan:
                     occ = sum(1 for t in self.trace if t[0] == p.i and t[1] == p.pending["f"] and t[2] == p.pending["act"])
                     if tuple(plan[0]) == (p.pending["f"], p.pending["act"], occ):
-                        cmd = plan[1] if (p.pending["act"] == "dump" or plan[1] == "kill") else "kill"
-                if cmd == "go":
+                        if plan[1].startswith("raise"):
+                            cmd = plan[1] if p.pending["act"] in ("acquire", "open_r", "open_w", "dump") else "go"
+                        else:
+                            cmd = plan[1] if (p.pending["act"] == "dump" or plan[1] == "kill") else "kill"
+                if cmd == "go" or cmd.startswith("raise"):
                     p.state = "running"
-                    self._send(p, "go")
+                    self._send(p, cmd)
                     t0 = time.time()
                     while p.state == "running" and p.pending is not None:
                         for q, m in self._pump(0.2):
@@ -625,9 +664,11 @@ def observed_choose(observed):
                 pos[0] += 1
                 continue
             pos[0] += 1
+            occ = sum(1 for t in sched.trace if t[0] == pid and t[1] == f and t[2] == p.pending["act"])
             if act == "crash":
-                occ = sum(1 for t in sched.trace if t[0] == pid and t[1] == f and t[2] == p.pending["act"])
                 sched.crash_plan[pid] = ((f, p.pending["act"], occ), res)
+            elif res in ("PermissionError", "OSError", "Timeout") and act in ("acquire", "open_r", "open_w", "dump"):
+                sched.crash_plan[pid] = ((f, act, occ), "raise " + res)    # an injected I/O error of the recorded run
             return p
         return enabled[0]
 
@@ -727,13 +768,21 @@ def model_state(c: Ctx, k: str, state, cls_of_prefix) -> str:
     return "wrongtype"
 
 
-def replay_in_model(drv, kind, file0, queries, trace, procs, fkey):
+def replay_in_model(drv, kind, file0, queries, trace, procs, fkey, disabled=()):
     """-> 'ok' or the first mismatch; trace entries [pid, file, act, res, keys]"""
     qs = ";".join(",".join(map(str, q)) if q else "-" for q in queries)
     a = drv.ask(f"init {kind} {file0} {qs}")
     if a != "ok":
         return "init: " + a, {}
     for pid, f, act, res, keys in trace:
+        if act == "wipe":
+            a = drv.ask("wipe")
+            # a cache-disabled process has no loader: in the model it "finds no file" right after its own wipe
+            if a == "ok" and fkey == "d" and pid in disabled:
+                a = drv.ask(f"ev {pid} exists 0")
+            if a != "ok":
+                return a, {}
+            continue
         if f != fkey:
             continue
         if act == "crash":
@@ -741,14 +790,12 @@ def replay_in_model(drv, kind, file0, queries, trace, procs, fkey):
             a = drv.ask(f"crash {pid} {n}")
         else:
             if act == "dump":
-                if res != "ok":
-                    return f"dump failed in the implementation: {res}", {}
-                res = ",".join(str(key_id(x)) for x in keys) if fkey == "d" else "0"
-                res = "?" if keys == ["?"] else (res or "-")
+                if res == "ok":     # otherwise: an I/O error class, the model's `fail` step
+                    res = ",".join(str(key_id(x)) for x in keys) if fkey == "d" else "0"
+                    res = "?" if keys == ["?"] else (res or "-")
             elif act in ("open_w",):
-                if res != "ok":
-                    return f"open('wb') failed in the implementation: {res}", {}
-                res = "-"
+                if res == "ok":
+                    res = "-"
             a = drv.ask(f"ev {pid} {act} {res}")
         if a != "ok":
             return a, {}
@@ -791,7 +838,18 @@ def state_ok(st: str) -> bool:
     return st == "missing" or st.startswith("valid")
 
 
+def drop_old_replays(ck):
+    """vcore.finish() never deletes replay files of earlier runs of the same (tier, seed): do it here"""
+    from vcore import VERIF
+    for f in (VERIF / "replays").glob(f"C18-{ck.tier}-{ck.seed}-*.json"):
+        try:
+            f.unlink()
+        except OSError:
+            pass
+
+
 def run(ck):
+    drop_old_replays(ck)
     ROOT.mkdir(exist_ok=True)
     work = ROOT / f"run-{os.getpid()}-{ck.seed}"
     shutil.rmtree(work, ignore_errors=True)
@@ -810,7 +868,7 @@ def _run(ck, work, only=None):
         phases[name] = round(time.time() - t_last[0], 1)
         t_last[0] = time.time()
 
-    ck.lean_obligations(generated=["CacheGuards"])
+    ck.lean_obligations(generated=["CacheGuards", "CachePrograms"])
     drv = ck.driver()
     mark("lean")
     rng = ck.rng
@@ -829,7 +887,7 @@ def _run(ck, work, only=None):
     ostream = (only or {}).get("stream")
     oin = (only or {}).get("input") or {}
 
-    def want(name):
+    def wanted(name):
         return only is None or ostream == name
 
     s0 = ck.stream("baseline", "cold start, warm start and SPSDK_CACHE_DISABLED=1 start with every query; non-trivial = each start")
@@ -843,7 +901,7 @@ def _run(ck, work, only=None):
 
     # ---------------------------------------------------------------- exception hierarchy (model vs live classes)
     sh = ck.stream("exception_hierarchy", "every ordered pair of the model's exception enum: Exc.isSub vs issubclass on the live classes; non-trivial = each pair")
-    if drv is not None and want("exception_hierarchy"):
+    if drv is not None and wanted("exception_hierarchy"):
         import builtins
         import pickle
         import filelock
@@ -897,7 +955,8 @@ def _run(ck, work, only=None):
     mark("prefix_classes")
     # ---------------------------------------------------------------- model exploration (all interleavings, small N) + guided replay
     helper(work, work / "hc", {"cmd": "variants", "golden": str(c.golden), "out": str(work / "variants")})
-    se = ck.stream("model_exploration", "exhaustive search of ALL interleavings (with kills) of the model instantiated with the generated guards, 1-3 processes, "
+    se = ck.stream("model_exploration", "exhaustive search of ALL interleavings (with kills and I/O errors at lock/open/dump; a second grid also with `wipe` = rmtree by a "
+                   "cache-disabled process, checking 'nobody fatal') of the model instantiated with the generated guards, 1-3 processes, "
                    "every class of initial file; must be safe; an unsafe model schedule is replayed on real processes; non-trivial = each scenario")
     unsafe = []
     if drv is not None and only is None:
@@ -908,10 +967,14 @@ def _run(ck, work, only=None):
         for f0 in ("missing", "raises:EOFError", "raises:UnpicklingError", "stale:1,2", "wrongtype", "valid:1", "valid:1,2"):
             for qs in ("1,2", "1;2", "1,2;2,3", "1;1", "1,2;2,1;3"):
                 grid.append(("config", f0, qs, 1))
+        for f0 in ("missing", "raises:EOFError", "stale:0", "valid:0"):
+            grid.append(("quick", f0, "0;0", 2))
+        for f0 in ("missing", "stale:1,2", "wrongtype", "valid:1"):
+            grid.append(("config", f0, "1;2", 2))
         for kind, f0, qs, wc in grid:
             drv.ask(f"init {kind} {f0} {qs}")
             a = drv.ask(f"explore {wc} {ck.budget(300000, 3000000)}")
-            se.note((kind, f0, qs), cls=a.split()[0])
+            se.note((kind, f0, qs, wc), cls=a.split()[0] + ("/wipes" if wc == 2 else ""))
             if a.startswith("unsafe"):
                 unsafe.append((kind, f0, qs, a))
             elif not a.startswith("safe"):
@@ -1052,6 +1115,91 @@ def _run(ck, work, only=None):
         shutil.rmtree(w, ignore_errors=True)
 
     mark("concurrent")
+    # ---------------------------------------------------------------- unusable cache folder (I/O errors of the store path, for real)
+    su = ck.stream("unusable_folder", "a REAL fresh interpreter whose SPSDK_CACHE_FOLDER cannot be used: below /proc (nothing can be created: the store fails with an OSError), "
+                   "below a regular file (ENOTDIR), a valid cache whose lock path is a directory (the lock cannot be taken: load and store fail); must exit 0 and answer as "
+                   "with the cache disabled; non-trivial = each (scenario, entry point)")
+    ucases = []
+    if wanted("unusable_folder"):
+        ucases = [(nm, cli) for nm in ("proc", "below_file", "lock_is_dir") for cli in ((False, True) if c.cli_ok else (False,))]
+        if only is not None:
+            ucases = [(oin["scenario"], oin.get("entry") != "query script")]
+
+    def do_unusable(case):
+        nm, cli = case
+        base = new_folder(c, "uf")
+        if nm == "proc":
+            folder = Path(f"/proc/c18-{os.getpid()}-{base.name}/cache")
+        elif nm == "below_file":
+            (base / "afile").write_text("x")
+            folder = base / "afile" / "cache"
+        else:
+            folder = base / "cache"
+            copy_cache(c.golden, folder)
+            for f in list(folder.glob("*.cache")):
+                (folder / (f.name + ".lock")).mkdir()
+        return case, base, run_start(folder, ALL_QUERIES, cli=cli)
+
+    with concurrent.futures.ThreadPoolExecutor(par) as ex:
+        results = list(ex.map(do_unusable, ucases))
+    for (nm, cli), base, r in results:
+        inp = {"scenario": nm, "entry": "nxpimage --help" if cli else "query script"}
+        su.note(inp, cls=nm)
+        exp = c.cli_expected if cli else c.expected
+        su.expect(r["rc"] == 0 and r["answers"] == exp["answers"], inp,
+                  "a start with an unusable cache folder (the cache cannot be stored / locked) is fatal or answers differently from a start with the cache disabled", r, {"rc": 0})
+        shutil.rmtree(base, ignore_errors=True)
+
+    # ---------------------------------------------------------------- cache-disabled processes among normal ones (free running)
+    sd = ck.stream("disabled_concurrent", "N in {3,6(,12)} REAL processes behind a barrier on one cache folder, a third of them with SPSDK_CACHE_DISABLED=1 (each of those "
+                   "rmtree's the cache folder — lock files included — under the others), on valid / cold / empty / stale caches, free running; every process must exit 0 "
+                   "with the answers of the cache-disabled run; a fresh start afterwards must work; non-trivial = each (scenario, N, repetition)")
+    dcases = []
+    if wanted("disabled_concurrent"):
+        for rep in range(ck.budget(1, 5)):
+            for name, qs_, ds_ in (("valid", "valid", "valid"), ("cold", "missing", "missing"), ("empty", 0, 0), ("stale", "q_stalefp", "d_stalefp")):
+                for n in ck.budget([3, 6], [3, 6, 12]):
+                    if ck.quick and ((name in ("empty", "stale")) != (n == 3)):
+                        continue
+                    dcases.append((name, qs_, ds_, n, rep))
+        if only is not None:
+            dcases = [next((nm, a, b, int(oin["N"]), int(oin["rep"])) for nm, a, b in (("valid", "valid", "valid"), ("cold", "missing", "missing"), ("empty", 0, 0), ("stale", "q_stalefp", "d_stalefp")) if nm == oin["scenario"])]
+
+    def do_disabled(case):
+        name, qs_, ds_, n, rep = case
+        folder = new_folder(c, "dc")
+        w = new_folder(c, "dcw")
+        set_state(c, folder, "q", qs_)
+        set_state(c, folder, "d", ds_)
+        r = random.Random(f"{ck.seed}/dis/{case}")
+        queries = []
+        for _ in range(n):
+            q = ALL_QUERIES[:]
+            r.shuffle(q)
+            queries.append(q[: r.randrange(3, len(q) + 1)])
+        dis = r.sample(range(n), max(1, n // 3))
+        s = Sched(w, folder, c.site, queries, None, free=True, disabled=dis).run()
+        after = run_start(folder, ALL_QUERIES)
+        return case, folder, w, queries, dis, s, after
+
+    with concurrent.futures.ThreadPoolExecutor(2) as ex:
+        results = list(ex.map(do_disabled, dcases))
+    for (name, qs_, ds_, n, rep), folder, w, queries, dis, s, after in results:
+        inp = {"scenario": name, "N": n, "rep": rep, "queries": queries, "disabled": dis}
+        sd.note(inp, cls=f"{name}/N={n}")
+        bad = []
+        for p in s.procs:
+            wantq = [a for a in c.expected["answers"] if a[0] in queries[p.i]]
+            got = parse_answers(p.out)
+            if p.rc != 0 or got is None or sorted(got) != sorted(wantq):
+                bad.append({"process": p.i, "disabled": p.i in dis, "rc": p.rc, "error": err_class(p.err) if p.rc else "", "answers_ok": got is not None and sorted(got) == sorted(wantq)})
+        sd.expect(not bad and not s.problem, inp, "with cache-disabled processes removing the cache folder under them, a process fails or answers differently from a start with the cache disabled",
+                  {"bad": bad[:4], "problem": s.problem})
+        sd.expect(after["rc"] == 0 and after["answers"] == c.expected["answers"], inp, "a fresh start after the mixed run is fatal or answers wrongly", after)
+        shutil.rmtree(folder, ignore_errors=True)
+        shutil.rmtree(w, ignore_errors=True)
+
+    mark("unusable+disabled")
     # ---------------------------------------------------------------- controlled schedules: real trace vs model, crashes injected
     sm = ck.stream("schedules", "2-4 REAL processes under the controlled scheduler (every cache action gated; random interleaving; in half of the runs one or two "
                    "processes are SIGKILLed at a random action, inside pickle.dump after 0 / half / all bytes) on every class of initial state; the observed schedule is "
@@ -1087,32 +1235,45 @@ def _run(ck, work, only=None):
                 f = r.choice(["q", "d", "d"])
                 act = r.choice(["dump", "dump", "dump", "open_w", "acquire", "load", "release", "exists", "remove", "open_r"])
                 plan[pid] = ((f, act, r.choice([0, 0, 1])), r.choice(["partial 0", "partial -2", "partial -1", "kill"]))
-        mcases.append((i, n, qs_, ds_, queries, plan))
+        elif r.random() < 0.5:
+            # I/O errors: the lock cannot be taken (time-out / folder gone), open fails (EACCES), the disk is full (ENOSPC)
+            for pid in r.sample(range(n), r.choice([1, 2]) if n > 2 else 1):
+                f = r.choice(["q", "d", "d"])
+                act = r.choice(["acquire", "acquire", "open_w", "open_w", "dump", "open_r"])
+                plan[pid] = ((f, act, r.choice([0, 0, 1])), "raise " + r.choice(["PermissionError", "OSError", "Timeout"] if act == "acquire" else ["PermissionError", "OSError"]))
+        dis = []
+        if i % 4 == 3:
+            # one process runs with SPSDK_CACHE_DISABLED=1: it rmtree's the cache folder under the others
+            dis = [r.randrange(n)]
+            plan.pop(dis[0], None)
+        mcases.append((i, n, qs_, ds_, queries, plan, dis))
     replay_choose = None
     if only is not None:
         mcases = []
         if ostream in ("schedules", "model_exploration") and "observed_schedule" in oin:
-            mcases = [(int(oin["schedule_no"]), int(oin["N"]), oin["quick_cache"], oin["config_cache"], oin["queries"], {})]
+            mcases = [(int(oin["schedule_no"]), int(oin["N"]), oin["quick_cache"], oin["config_cache"], oin["queries"], {}, list(oin.get("disabled", [])))]
             replay_choose = observed_choose(oin["observed_schedule"])
 
     def do_sched(case, choose=None, tag="sc"):
-        i, n, qs_, ds_, queries, plan = case
+        i, n, qs_, ds_, queries, plan = case[:6]
+        dis = case[6] if len(case) > 6 else []
         folder = new_folder(c, tag)
         w = new_folder(c, tag + "w")
         set_state(c, folder, "q", qs_)
         set_state(c, folder, "d", ds_)
         r = random.Random(f"{ck.seed}/choose/{i}")
-        s = Sched(w, folder, c.site, queries, choose or rng_choose(r), crash_plan=plan).run()
+        s = Sched(w, folder, c.site, queries, choose or rng_choose(r), crash_plan=plan, disabled=dis).run()
         after = run_start(folder, ALL_QUERIES)
         return case, folder, w, s, after
 
     def judge(stream, case, folder, w, s, after, st, extra=None):
-        i, n, qs_, ds_, queries, plan = case
+        i, n, qs_, ds_, queries, plan = case[:6]
+        dis = case[6] if len(case) > 6 else []
         inp = {"schedule_no": i, "N": n, "quick_cache": qs_, "config_cache": ds_, "queries": queries, "crash_plan": {str(k): v for k, v in plan.items()},
-               "observed_schedule": [t[:4] for t in s.trace][:400]}
+               "disabled": dis, "observed_schedule": [t[:4] for t in s.trace][:400]}
         if extra:
             inp.update(extra)
-        stream.note((i, n, qs_, ds_, queries, sorted(plan.items())), cls=f"q={qs_ if isinstance(qs_, str) else 'prefix'}/d={ds_ if isinstance(ds_, str) else 'prefix'}/N={n}/{'kill' if any(p.killed for p in s.procs) else 'nokill'}")
+        stream.note((i, n, qs_, ds_, queries, sorted(plan.items())), cls=f"q={qs_ if isinstance(qs_, str) else 'prefix'}/d={ds_ if isinstance(ds_, str) else 'prefix'}/N={n}/{'kill' if any(p.killed for p in s.procs) else 'ioerr' if any(str(v[1]).startswith('raise') for v in plan.values()) else 'nokill'}{'/disabled' if dis else ''}")
         bad = []
         for p in s.procs:
             if p.killed:
@@ -1126,16 +1287,16 @@ def _run(ck, work, only=None):
         stream.expect(after["rc"] == 0 and after["answers"] == c.expected["answers"], inp, "a fresh start after this schedule is fatal or answers wrongly (the cache was left in a harmful state)", after)
         stream.expect(all(state_ok(st.get(x, "?")) for x in ("q", "d")), inp, "after the schedule and one more start a cache file is neither valid nor absent", st)
         if drv is not None and not s.problem:
-            mq, eq = replay_in_model(drv, "quick", model_state(c, "q", qs_, cls_of_prefix), [[0] for _ in queries], s.trace, s.procs, "q")
+            mq, eq = replay_in_model(drv, "quick", model_state(c, "q", qs_, cls_of_prefix), [[0] for _ in queries], s.trace, s.procs, "q", dis)
             stream.compare({**inp, "cache": "quick"}, "ok", mq, "observed schedule of the real processes is not a run of the model (quick-info cache)")
             if ds_ == "d_vanished":
                 # hash_db_data raising FileNotFoundError (a cached file vanished) is outside the model (it has a total fingerprint
                 # function and would take the stale branch: one more `remove`); this state is judged by the oracle parts only
                 return ok
-            md, ed = replay_in_model(drv, "config", model_state(c, "d", ds_, cls_of_prefix), [queries_to_keys(q) for q in queries], s.trace, s.procs, "d")
+            md, ed = replay_in_model(drv, "config", model_state(c, "d", ds_, cls_of_prefix), [queries_to_keys(q) for q in queries], s.trace, s.procs, "d", dis)
             stream.compare({**inp, "cache": "config"}, "ok", md, "observed schedule of the real processes is not a run of the model (config cache)")
             if mq == "ok" and md == "ok":
-                touch = {(t[0], t[1]) for t in s.trace}
+                touch = {(t[0], t[1]) for t in s.trace if t[2] != "wipe"}
                 stream.compare({**inp, "cache": "exit"}, "ok", judge_exits(s.procs, touch, eq, ed), "exit status of a real process differs from the model's")
         return ok
 
@@ -1155,6 +1316,8 @@ def _run(ck, work, only=None):
         for tok in (m.group(2).split() if m else []):
             if tok.startswith("r"):
                 script.append((int(tok[1:]), "r", 0))
+            elif tok.startswith("f") or tok == "w":
+                continue    # injected I/O errors / wipes of a model counter-example are not scripted on the real processes
             else:
                 pid, n = tok[1:].split("/")
                 script.append((int(pid), "k", 0 if n == "0" else -2))
@@ -1196,7 +1359,7 @@ def replay(ck, data):
     """re-run exactly the recorded case (crash state / variant / scenario / observed schedule incl. kill points)."""
     case = (data.get("cases") or [{}])[0]
     only = {"stream": data.get("stream"), "input": case.get("input")}
-    if data.get("stream") not in ("crash_starts", "stale_starts", "concurrent_starts", "schedules", "model_exploration") or not isinstance(only["input"], dict):
+    if data.get("stream") not in ("crash_starts", "stale_starts", "concurrent_starts", "schedules", "model_exploration", "unusable_folder", "disabled_concurrent") or not isinstance(only["input"], dict):
         return run(ck)
     ROOT.mkdir(exist_ok=True)
     work = ROOT / f"replay-{os.getpid()}-{ck.seed}"
